@@ -9,7 +9,7 @@ from props import rules_common as rc
 LEVEL = "model_checking"
 
 NAME = {"a": "a", "k-1": "k-1", "x_y": "x_y", "uname": "ключ"}
-VAL = {"v1": "v1", "uni": "значение-é", "empty": "", "gt": "x>y", "ltkv": "a<b k=v", "otherq": None, "looktag": "<block name=z>", "cmtchars": "#fff //x ## y", "-": ""}
+VAL = {"v1": "v1", "uni": "значение-é", "empty": "", "gt": "x>y", "ltkv": "a<b k=v", "otherq": None, "looktag": "<block name=z>", "cmtchars": "#fff //x ## y", "bslash": "C:\\Tools\\", "url": "https://a.b//c", "-": ""}
 SEP = {"sp": " ", "sp2": "  ", "tab": "\t", "nl": "\n   "}
 EQ = {"eq": "=", "sp_eq_sp": " = ", "nl_eq": "\n   ="}
 END = {"plain": "</block>", "inner": "</ block >", "trailsp": "</block >"}
@@ -58,8 +58,16 @@ def render(case, ci):
         tail, after = after, ""
     body = "note " + (before + " " if before else "") + tag + (" " + after if after else "") + " note"
     multi = "\n" in body
-    lang = ci % 3
-    if multi or lang == 0:
+    lang = ci % 5
+    if not multi and lang in (3, 4):
+        # C-family line comments ("//" is blanked by a different normaliser than Rust's): TypeScript and Go
+        hdr = "package p\n" if lang == 4 else ""
+        text = hdr + "// " + body + "\nvar x = 1\n// " + END[lay["endsp"]] + "\n" + ("// " + tail + "\n" if tail else "")
+        name = "t.ts" if lang == 3 else "t.go"
+        prefix = "// note " + (before + " " if before else "")
+        col = len(prefix.encode()) + 1
+        return name, text, [(exp, 2 if hdr else 1, col)]
+    if multi or lang in (0, 3, 4):
         text = "/* " + body + " */\nstatic X: i32 = 1;\n/* " + END[lay["endsp"]] + " */\n" + ("/* " + tail + " */\n" if tail else "")
         name = "t.rs"
         prefix = "/* note " + (before + " " if before else "")
